@@ -35,6 +35,7 @@ package biscuit
 //@ serves C01 C10 C16 C20
 //@ requires len(root) == 64 && baseSymbols != nil && blockWF(authority)
 //@ requires forall j int :: { opts[j] } 0 <= j && j < len(opts) ==> opts[j] != nil
+//@ modifies nothing
 //@ loop 0 invariant (forall j int :: { opts[j] } 0 <= j && j < #i ==> !(opts[j] is rootKeyIDOption)) ==> options.rootKeyID == nil
 //@ loop 0 invariant #i > 0 && opts[#i-1] is rootKeyIDOption ==> options.rootKeyID != nil && *options.rootKeyID == opts[#i-1].(rootKeyIDOption)
 //@ ensures no_token_on_error: err != nil ==> res == nil
@@ -806,3 +807,114 @@ package biscuit
 //@ loop 4 invariant len(policy.Queries) == len(pbPolicy.Queries) && fresh(arr(policy.Queries)) && v.symbols != nil
 //@ ensures counts[C18]: err == nil ==> len(v.checks) == len(pbPolicies.Checks) && len(v.policies) == len(pbPolicies.Policies)
 //@ ensures kinds[C18]: err == nil ==> (forall k int :: { v.policies[k] } 0 <= k && k < len(v.policies) ==> (v.policies[k].Kind == PolicyKindAllow && *pbPolicies.Policies[k].Kind == pb.Policy_Allow) || (v.policies[k].Kind == PolicyKindDeny && *pbPolicies.Policies[k].Kind == pb.Policy_Deny))
+
+// ---------------------------------------------------------------------------
+// builders (builder.go): C07 C08 C10 C16 C20
+
+//@ iface (o builderOption) applyToBuilder(b *builderOptions)
+//@ serves C10 C16 C20
+//@ requires b != nil && (o is symbolsOption ==> o.(symbolsOption).SymbolTable != nil)
+//@ modifies b.symbolsStart, b.symbols, b.rng, b.rootKeyID
+//@ ensures symbols: (o is symbolsOption ==> b.symbols != nil && fresh(b.symbols) && b.symbolsStart == len(*b.symbols)) && (!(o is symbolsOption) ==> b.symbols == old(b.symbols) && b.symbolsStart == old(b.symbolsStart))
+//@ ensures keyid[C16]: (o is rootKeyIDOption ==> b.rootKeyID != nil && *b.rootKeyID == o.(rootKeyIDOption)) && (!(o is rootKeyIDOption) ==> b.rootKeyID == old(b.rootKeyID))
+//@ ensures rng[C20]: (o is rngOption && o.(rngOption).Reader != nil ==> b.rng != nil) && (!(o is rngOption) ==> b.rng == old(b.rng))
+
+//@ func NewBuilder(root ed25519.PrivateKey, opts []builderOption) (res Builder)
+//@ serves C10 C16 C20
+//@ requires len(root) == 64
+//@ requires forall j int :: { opts[j] } 0 <= j && j < len(opts) ==> opts[j] != nil && (opts[j] is symbolsOption ==> opts[j].(symbolsOption).SymbolTable != nil)
+//@ modifies nothing
+//@ loop 0 invariant b != nil && fresh(b) && b.rootKey == root && b.symbols != nil && 0 <= b.symbolsStart && b.symbolsStart <= len(*b.symbols) && b.facts != nil && fresh(b.facts) && len(*b.facts) == 0 && len(b.rules) == 0 && len(b.checks) == 0
+//@ loop 0 invariant (forall j int :: { opts[j] } 0 <= j && j < #i ==> !(opts[j] is rootKeyIDOption)) ==> b.rootKeyID == nil
+//@ loop 0 invariant #i > 0 && opts[#i-1] is rootKeyIDOption ==> b.rootKeyID != nil && *b.rootKeyID == opts[#i-1].(rootKeyIDOption)
+//@ ensures wf: res is *builderOptions && tbWF(res.(*builderOptions))
+//@ ensures keyid_absent[C16]: (forall j int :: { opts[j] } 0 <= j && j < len(opts) ==> !(opts[j] is rootKeyIDOption)) ==> res.(*builderOptions).rootKeyID == nil
+//@ ensures keyid_last[C16]: len(opts) > 0 && opts[len(opts)-1] is rootKeyIDOption ==> res.(*builderOptions).rootKeyID != nil && *res.(*builderOptions).rootKeyID == opts[len(opts)-1].(rootKeyIDOption)
+
+//@ func (b *builderOptions) AddAuthorityFact(fact Fact) (err error)
+//@ serves C07 C10
+//@ requires tbWF(b) && bPredWF(fact.Predicate)
+//@ modifies *b.facts, spare(*b.facts), *b.symbols, spare(*b.symbols)
+//@ ensures tbWF(b)
+
+//@ func (b *builderOptions) AddAuthorityRule(rule Rule) (err error)
+//@ serves C07 C10
+//@ requires tbWF(b) && bRuleWF(rule)
+//@ modifies b.rules, spare(b.rules), *b.symbols, spare(*b.symbols)
+//@ ensures tbWF(b) && err == nil
+
+//@ func (b *builderOptions) AddAuthorityCheck(check Check) (err error)
+//@ serves C07 C10
+//@ requires tbWF(b) && bCheckWF(check)
+//@ modifies b.checks, spare(b.checks), *b.symbols, spare(*b.symbols)
+//@ ensures tbWF(b) && err == nil
+
+//@ func (b *builderOptions) SetContext(context string)
+//@ serves C10
+//@ requires b != nil
+//@ modifies b.context
+//@ ensures b.context == context
+
+//@ func (b *builderOptions) Build() (res *Biscuit, err error)
+//@ serves C07 C10 C16 C20
+//@ requires tbWF(b)
+//@ modifies *b.symbols
+//@ ensures no_token_on_error[C20]: err != nil ==> res == nil
+//@ ensures wf: err == nil ==> wfToken(res) && len(res.blocks) == 0
+//@ ensures keyid[C16]: err == nil ==> (b.rootKeyID == nil ==> res.container.RootKeyId == nil) && (b.rootKeyID != nil ==> res.container.RootKeyId != nil && *res.container.RootKeyId == *b.rootKeyID)
+//@ ensures content[C07]: err == nil ==> res.authority.facts == b.facts && res.authority.rules == b.rules && res.authority.checks == b.checks && res.authority.context == b.context && res.authority.version == 3
+
+//@ func New(rng io.Reader, root ed25519.PrivateKey, baseSymbols *datalog.SymbolTable, authority *Block) (res *Biscuit, err error)
+//@ serves C10 C20
+//@ requires len(root) == 64 && baseSymbols != nil && blockWF(authority)
+//@ modifies nothing
+//@ ensures no_token_on_error[C20]: err != nil ==> res == nil
+//@ ensures wf: err == nil ==> wfToken(res) && len(res.blocks) == 0 && res.authority == authority
+
+//@ func (b *Biscuit) CreateBlock() (res BlockBuilder)
+//@ serves C08 C10 C19
+//@ requires b != nil && b.symbols != nil
+//@ modifies nothing
+//@ ensures res is *blockBuilder && bbWF(res.(*blockBuilder)) && fresh(res.(*blockBuilder)) && fresh(res.(*blockBuilder).symbols) && fresh(arr(*res.(*blockBuilder).symbols)) && fresh(res.(*blockBuilder).facts)
+//@ ensures starts_after_token_symbols[C07]: res.(*blockBuilder).symbolsStart == len(*b.symbols)
+
+//@ func NewBlockBuilder(baseSymbols *datalog.SymbolTable) (res BlockBuilder)
+//@ serves C08 C10
+//@ requires baseSymbols != nil
+//@ modifies nothing
+//@ ensures res is *blockBuilder && bbWF(res.(*blockBuilder)) && fresh(res.(*blockBuilder)) && res.(*blockBuilder).symbols == baseSymbols && res.(*blockBuilder).symbolsStart == len(*baseSymbols) && fresh(res.(*blockBuilder).facts)
+
+//@ func (b *blockBuilder) AddFact(fact Fact) (err error)
+//@ serves C07 C08 C10
+//@ requires bbWF(b) && bPredWF(fact.Predicate)
+//@ modifies *b.facts, spare(*b.facts), *b.symbols, spare(*b.symbols)
+//@ ensures bbWF(b)
+
+//@ func (b *blockBuilder) AddRule(rule Rule) (err error)
+//@ serves C07 C08 C10
+//@ requires bbWF(b) && bRuleWF(rule)
+//@ modifies b.rules, spare(b.rules), *b.symbols, spare(*b.symbols)
+//@ ensures bbWF(b) && err == nil
+
+//@ func (b *blockBuilder) AddCheck(check Check) (err error)
+//@ serves C07 C08 C10
+//@ requires bbWF(b) && bCheckWF(check)
+//@ modifies b.checks, spare(b.checks), *b.symbols, spare(*b.symbols)
+//@ ensures bbWF(b) && err == nil
+
+//@ func (b *blockBuilder) SetContext(context string)
+//@ serves C10
+//@ requires b != nil
+//@ modifies b.context
+//@ ensures b.context == context
+
+//@ func (b *blockBuilder) Build() (res *Block)
+//@ serves C07 C08 C10
+//@ requires bbWF(b)
+//@ modifies b.symbols, *b.symbols
+//@ ensures fresh_block[C08]: res != nil && fresh(res) && fresh(res.symbols) && fresh(arr(*res.symbols)) && fresh(res.facts) && (len(*res.facts) > 0 ==> fresh(arr(*res.facts))) && (len(res.rules) > 0 ==> fresh(arr(res.rules))) && (len(res.checks) > 0 ==> fresh(arr(res.checks)))
+//@ ensures wf_facts: factsWF(*res.facts)
+//@ ensures wf_rules: rulesWF(res.rules)
+//@ ensures wf_checks: checksWF(res.checks)
+//@ ensures content[C07]: len(*res.facts) == len(*b.facts) && (forall j int :: { (*res.facts)[j] } 0 <= j && j < len(*res.facts) ==> (*res.facts)[j] == (*b.facts)[j]) && len(res.rules) == len(b.rules) && len(res.checks) == len(b.checks) && res.context == b.context && res.version == 3
+//@ ensures new_symbols_only[C07]: len(*res.symbols) == old(len(*b.symbols)) - b.symbolsStart && (forall j int :: { (*res.symbols)[j] } 0 <= j && j < len(*res.symbols) ==> (*res.symbols)[j] == old((*b.symbols)[b.symbolsStart + j]))
